@@ -121,6 +121,8 @@ def parseOp (s : St) (toks : List String) : Option Op :=
   | "verify" => some .verify
   | "obs" | "announce" | "diskcheck" | "magnet" | "crashcheck" => some .nop
   | "persist" => some .persist
+  | "waitstop" => some .waitstop
+  | "trk" => some (.trk [])
   | "mutate" =>
     let file := if kvStr toks "file" = "all" then none else some (kvNat toks "file")
     let how := match kvStr toks "how" with
@@ -169,10 +171,12 @@ structure DSt where
   s : Option St := none
   implDials : Nat := 0
   knownPeers : List Nat := []
+  trk : TrkSt := {}
+  startWhileStopping : Bool := false
   parked : Parked := none
 
 def renderObs (s : St) (verdict : String) (outs : List Out) (impl : List (String × String))
-    (dlTok : String) : String :=
+    (dlTok : String) (ntrk : Nat := 0) (anns : List String := []) : String :=
   let pred (k : String) (v : String) : String :=
     match k with
     | "st" => s.status.str
@@ -206,10 +210,17 @@ def renderObs (s : St) (verdict : String) (outs : List Out) (impl : List (String
     | "open" => toString (s.openFiles.length + s.leaked)
     | "workers" =>
       joinOrDash ((if s.allocator then ["alloc"] else []) ++ (if s.verifier then ["verify"] else []) ++
-        (if s.stopAnn then ["stopann"] else []) ++ (if s.acceptor then ["acceptor"] else []))
+        (if s.stopAnn then ["stopann"] else []) ++ (if s.acceptor && ntrk > 0 then [s!"ann{ntrk}"] else []) ++
+        (if s.acceptor then ["acceptor"] else []))
     | "susp" => boolStr s.writing.isSome
     | "ram" => s!"{s.dls.length}/{s.dls.length * s.cfg.pl}"
     | "sto" => ",".intercalate s.sto
+    | "ann" =>
+      -- `completed` announces race with the announcers being stopped: not compared
+      let implRest := (commaList v).filter fun e => (e.splitOn ":completed:").length < 2
+      let implCompleted := (commaList v).filter fun e => (e.splitOn ":completed:").length ≥ 2
+      if sortStrings implRest = sortStrings anns then v
+      else joinOrDash (sortStrings (anns ++ implCompleted))
     | "disk" => if allTrue s.diskOK && (List.range s.cfg.flens.length).all (fun f => s.cfg.fpads.getD f false || s.fileExists.getD f false) then "ok" else "bad"
     | _ => v
   let isPeerKey (k : String) : Bool := k.startsWith "p" && (k.drop 1).toString.toNat?.isSome
@@ -233,8 +244,9 @@ def renderObs (s : St) (verdict : String) (outs : List Out) (impl : List (String
   let extra := missingPeers.map fun pk =>
     s!"p{pk}=[control:{joinOrDash ((outs.filter (·.k = pk)).map (·.msg))}]"
   let extraSto := if !s.sto.isEmpty && !(impl.any fun (k, _) => k = "sto") then [s!"sto={",".intercalate s.sto}"] else []
+  let extraAnn := if !anns.isEmpty && !(impl.any fun (k, _) => k = "ann") then [s!"ann={joinOrDash (sortStrings anns)}"] else []
   let extraErr := if s.lastErr && !(impl.any fun (k, _) => k = "err") && s.status = .stopped then ["err=?"] else []
-  let body := " ".intercalate (toks ++ extra ++ extraSto ++ extraErr)
+  let body := " ".intercalate (toks ++ extra ++ extraAnn ++ extraSto ++ extraErr)
   if verdict = "" then body else if body = "" then verdict else verdict ++ " " ++ body
 
 /-- Oracles on the implementation's observation, relative to the model's ground truth. -/
@@ -324,8 +336,9 @@ def stepDriver (d : DSt) (op implObs : String) : DSt × String × List String :=
     let s := { s with infoAtAdd := kvStr toks "magnet" ≠ "1", isize := (((impl.find? fun (k, _) => k = "isize").bind fun (_, x) => x.toNat?)).getD 0,
                       maxMeta := ((kv? toks "cfg.MaxMetadataSize").bind (·.toNat?)).getD 31457280,
                       parMeta := ((kv? toks "cfg.ParallelMetadataDownloads").bind (·.toNat?)).getD 2 }
+    let ntrk := if kvStr toks "magnet" = "1" then 0 else kvNat toks "trackers"
     if v ≠ "ok" then ({ s := none }, implObs, [])
-    else ({ s := some s }, renderObs s "ok" [] impl "-", [])
+    else ({ s := some s, trk := { ntrk := ntrk, hang := List.replicate ntrk false } }, renderObs s "ok" [] impl "-", [])
   else
   match d.s with
   | none => (d, implObs, [])
@@ -335,6 +348,17 @@ def stepDriver (d : DSt) (op implObs : String) : DSt × String × List String :=
     if implObs = "hang" || implObs = "dead" || implObs.startsWith "panic:" then
       (d, "alive", [s!"C04 loop-{implObs.takeWhile (· ≠ ':')} op={toks.headD ""}"])
     else
+    -- stub trackers: mode changes; whether a stop that happens now would wait for a silent tracker
+    let trk : TrkSt :=
+      if toks.headD "" = "trk" then
+        let hang := kvStr toks "mode" = "hang-stopped"
+        let upd := if kvStr toks "mode" = "" then d.trk.hang
+                   else (List.range d.trk.ntrk).map fun i =>
+                     if kvStr toks "i" = "" || kvNat toks "i" = i then hang else d.trk.hang.getD i false
+        { d.trk with hang := upd }
+      else d.trk
+    let s := { s with stopHang := if s.stopAnn then s.stopHang else (s.acceptor && trk.anyHang) }
+    let prevSt := s
     match parseOp s toks with
     | none => (d, implObs, [])
     | some mop =>
@@ -348,7 +372,7 @@ def stepDriver (d : DSt) (op implObs : String) : DSt × String × List String :=
     let implWorkers := commaList (((impl.find? fun (k, _) => k = "workers").map (·.2)).getD "-")
     let st1 := if st1.acceptor && !s.acceptor && !(implWorkers.contains "acceptor") then { st1 with acceptor := false } else st1
     match st1.panicked with
-    | some why => ({ d with s := some st1, knownPeers := known }, "model-panic:" ++ why, [s!"C04 model-predicts-panic why={why.replace " " "_"}"])
+    | some why => ({ d with s := some st1, knownPeers := known, trk := trk }, "model-panic:" ++ why, [s!"C04 model-predicts-panic why={why.replace " " "_"}"])
     | none =>
       -- the allowed-fast set sent to a peer depends on a SHA-1 of its address: taken from the implementation,
       -- checked for admissibility (distinct, in range, at most `AllowedFastSet` many)
@@ -378,7 +402,27 @@ def stepDriver (d : DSt) (op implObs : String) : DSt × String × List String :=
         ++ errs.map (fun e => "C10 download-progress-diverged " ++ e.replace " " "_")
         ++ errsI.map (fun e => "C13 metadata-download-inadmissible " ++ e.replace " " "_")
       let implDials := (((impl.find? fun (k, _) => k = "dials").bind fun (_, x) => x.toNat?)).getD d.implDials
-      ({ s := some st2, parked := parked, implDials := implDials, knownPeers := known }, renderObs st2 r.verdict outs1 impl dlTok, viol)
+      -- announces the stub trackers must have received in this op, with the identity they must carry
+      let ident := (if st2.cfg.isPrivate && st2.infoAtAdd then "priv:priv" else "pub:pub") ++ ":ok"
+      let anns := (annEvents trk prevSt st2).map fun (i, ev) => s!"{i}:{ev}:{ident}"
+      let implAnn := commaList (((impl.find? fun (k, _) => k = "ann").map (·.2)).getD "-")
+      let annViol :=
+        (implAnn.filterMap fun e =>
+          if (e.splitOn "!mismatch").length ≥ 2 || e.endsWith ":bad" then some s!"C15 announce-identity-differs-from-torrent entry={e}" else none) ++
+        (if st2.cfg.isPrivate && st2.infoAtAdd then implAnn.filterMap fun e =>
+            if (e.splitOn ":pub").length ≥ 2 then some s!"C19 private-torrent-public-identity-in-announce entry={e}" else none
+         else [])
+      -- C04: a stop reaches Stopped within the tracker stop timeout; a start is never silently dropped
+      let implWorkers := commaList (((impl.find? fun (k, _) => k = "workers").map (·.2)).getD "-")
+      let implSt := ((impl.find? fun (k, _) => k = "st").map (·.2)).getD ""
+      let sws := if toks.headD "" = "start" && s.stopAnn then true
+                 else if toks.headD "" = "stop" || toks.headD "" = "verify" then false else d.startWhileStopping
+      let c04trk :=
+        (if toks.headD "" = "waitstop" && implWorkers.contains "stopann" then ["C04 stop-does-not-reach-stopped-within-timeout"] else []) ++
+        (if toks.headD "" = "waitstop" && sws && implSt = "Stopped" then ["C04 start-dropped-while-stopping"] else [])
+      let sws := if toks.headD "" = "waitstop" then false else sws
+      ({ s := some st2, parked := parked, implDials := implDials, knownPeers := known, trk := trk, startWhileStopping := sws },
+        renderObs st2 r.verdict outs1 impl dlTok trk.ntrk anns, viol ++ annViol ++ c04trk)
 
 def mkSuite (name : String) : Suite where
   name := name
